@@ -23,7 +23,7 @@ RULE_TEXT = ('runs = seeded random suite hierarchies (depth <= 3, <= 3 sub-suite
              'file); a fixed sweep assigns every verdict to a case of a one-suite and of a two-level hierarchy. Each '
              'plan runs with both reporters. Non-trivial = >= 2 cases or a structural fault; distinct = (hierarchy '
              'shape, listing styles, multiset of endings, structural fault).')
-REACH_PROBES = ['ending_processor_fails', 'verdict_PASS', 'verdict_FAIL', 'verdict_XFAIL', 'verdict_XPASS', 'verdict_SKIPPED',
+REACH_PROBES = ['suites_by_glob_of_directories', 'suites_by_glob_of_files', 'ending_processor_fails', 'verdict_PASS', 'verdict_FAIL', 'verdict_XFAIL', 'verdict_XPASS', 'verdict_SKIPPED',
                 'verdict_VALIDATION_ERROR', 'verdict_HARD_ERROR', 'verdict_INTERNAL_ERROR', 'verdict_SYNTAX_ERROR',
                 'verdict_FILE_ACCESS_ERROR', 'ending_act_syntax', 'ending_unreadable', 'ending_timeout', 'all_ok',
                 'some_unsuccessful', 'sub_suite', 'depth_3', 'glob_listing', 'directory_reference', 'invalid_twice',
@@ -131,6 +131,17 @@ def gen_hierarchy(g, force_subs=False):
                 mk(sk, os.path.join(d, 'd%d' % counter[0]), depth + 1, g.choice(['file', 'file', 'dir']))
 
     mk('root', '', 1, None)
+    # how a suite lists its sub-suites: by name (files / directories), or by a glob that matches directories with a
+    # default suite file, or by a glob that matches suite files; glob matches are processed in sorted order
+    for key, s in h.items():
+        s['subs_style'] = 'explicit'
+        if s['subs'] and g.random() < 0.4:
+            style = g.choice(['glob_dirs', 'glob_files'])
+            s['subs_style'] = style
+            for sk in s['subs']:
+                h[sk]['ref'] = 'dir' if style == 'glob_dirs' else 'file'
+                h[sk]['file'] = 'exactly.suite' if style == 'glob_dirs' else '%s.suite' % sk
+            s['subs'] = sorted(s['subs'], key=lambda sk: h[sk]['dir'])
     # explicit listings are written in a random order: that order is the listing order
     for s in h.values():
         if s['style'] in ('explicit', 'mixed'):
@@ -198,10 +209,16 @@ def build_world(plan, w):
         lines = []
         if s['subs']:
             lines.append('[suites]')
-            for sk in s['subs']:
-                sub = h[sk]
-                rel = sub['dir'][len(s['dir']):].lstrip('/')
-                lines.append(rel if sub['ref'] == 'dir' else os.path.join(rel, sub['file']))
+            style = s.get('subs_style', 'explicit')
+            if style == 'glob_dirs':
+                lines.append('d*')
+            elif style == 'glob_files':
+                lines.append('d*/*.suite')
+            else:
+                for sk in s['subs']:
+                    sub = h[sk]
+                    rel = sub['dir'][len(s['dir']):].lstrip('/')
+                    lines.append(rel if sub['ref'] == 'dir' else os.path.join(rel, sub['file']))
         case_lines, order = listing(s)
         if case_lines:
             lines.append('[cases]')
@@ -381,6 +398,11 @@ def _probes(plan, hist):
             pr['glob_listing'] = 1
         if any(s['ref'] == 'dir' for s in h.values()):
             pr['directory_reference'] = 1
+        for s in h.values():
+            if s.get('subs_style') == 'glob_dirs':
+                pr['suites_by_glob_of_directories'] = 1
+            if s.get('subs_style') == 'glob_files':
+                pr['suites_by_glob_of_files'] = 1
         if not h['root']['cases'] and len(h) > 1:
             pr['root_without_cases'] = 1
     hist['probes'] = pr
@@ -480,7 +502,7 @@ def oracle(plan, hist):
             {'identifier': final, 'exit': pg['exit']})
     # ---- per-case lines (association device; parsed leniently)
     parsed = parse_progress(pg['stream'], 'out')
-    if len(parsed) == 0 and ex:
+    if len(parsed) == 0 and ex and re.search(r'^case\b', pg['stdout'], re.M):
         raise kernel.HarnessError('cannot parse the progress lines: %r' % pg['stdout'][:300])
     got = [(os.path.normpath(p[0]), p[1]) for p in parsed]
     want = [(os.path.normpath(c['file']), c['ident']) for c in ex]
@@ -548,7 +570,7 @@ def classify_known(plan, hist, violation, kf):
 
 def signature(plan, hist):
     h = plan['hierarchy']
-    shape = tuple(sorted((s['dir'].count('d'), len(s['cases']), s['style'], s['ref']) for s in h.values()))
+    shape = tuple(sorted((s['dir'].count('d'), len(s['cases']), s['style'], s['ref'], s.get('subs_style')) for s in h.values()))
     endings = tuple(sorted(c['ending'] for s in h.values() for c in s['cases']))
     n = sum(len(s['cases']) for s in h.values())
     return n >= 2 or bool(plan['struct_fault']), (shape, endings, plan['struct_fault'])
